@@ -7,6 +7,17 @@ def run(check, F, rule, entries, table, stop=(), scope=None, floor_sites=0, floo
     """table: {site key: [entry...]} with entry = dict(tag, n, why, scope=None|set, when=None|callable)
     Each entry discharges up to `n` sites having that key (in order of appearance)."""
     panics.FACTS = F
+    rec = getattr(F.bodies, "record", None)
+    if rec is not None:
+        F.bodies.record = False        # panic reachability visits every reachable body; that is not a semantic inspection
+    try:
+        return _run(check, F, rule, entries, table, stop, scope, floor_sites, floor_bodies)
+    finally:
+        if rec is not None:
+            F.bodies.record = rec
+
+
+def _run(check, F, rule, entries, table, stop, scope, floor_sites, floor_bodies):
     missing = [e for e in entries if e not in F.bodies]
     for e in missing:
         check.fail(rule, "entry:" + e, "obligation not established: entry point %s not found" % e)
